@@ -8,6 +8,11 @@ pub(crate) fn is_ident(s: &str) -> bool {
     }
     while let Some(c) = chars.next() {
         if c == '\\' {
+            // a backslash at the very end or in front of a newline is not an escape
+            match chars.peek() {
+                None | Some('\n' | '\r' | '\x0C') => return false,
+                Some(..) => {}
+            }
             for _ in 0..6 {
                 let next = match chars.next() {
                     Some(t) => t,
